@@ -11,7 +11,7 @@ FAMILIES = [
     ("tell_with_timeout.", ["timeout_full_mailbox", "sends_to_stopped"]),
     ("ask_with_timeout.", ["timeout_full_mailbox", "sends_to_stopped"]),
     ("tell.", ["sends_to_stopped", "lifecycle_basic", "capacity_bound", "drop_refs"]),
-    ("ask.", ["ask_reply_integrity", "sends_to_stopped"]),
+    ("ask.", ["ask_reply_integrity", "sends_to_stopped", "dd_cycles", "dd_no_residue", "dd_cycle_first_edge_parked"]),
     ("ask_join.", ["ask_reply_integrity"]),
     ("kill.", ["kill_preempt", "sends_to_stopped"]),
     ("stop.", ["lifecycle_basic", "sends_to_stopped", "capacity_bound"]),
@@ -27,8 +27,14 @@ FAMILIES = [
     ("identity.", ["identity_and_liveness"]),
     ("error.", ["timeout_full_mailbox"]),
     ("metrics.", ["metrics_counts"]),
-    ("hook.", ["lifecycle_basic"]),
+    ("hook.", ["lifecycle_basic", "dd_cycles"]),
+    ("has_path.", ["dd_cycles", "dd_no_residue", "dd_cycle_first_edge_parked"]),
+    ("wait_for_guard.", ["dd_no_residue", "dd_cycles"]),
+    ("drop_body.", ["dd_no_residue"]),
+    ("mutex.", ["dd_cycles"]),
+    ("panic_site.", ["dd_cycles", "dd_no_residue"]),
 ]
+DD = ["dd_cycles", "dd_no_residue", "dd_cycle_first_edge_parked"]
 
 
 def scenarios_for(label):
@@ -108,7 +114,8 @@ def run_scenarios(sc, repo="/repo"):
         crate = tmp
     env = dict(os.environ, CARGO_TARGET_DIR=os.path.join(os.path.dirname(HERE), "build", "replay-target"), CARGO_NET_OFFLINE="true")
     try:
-        p = subprocess.run(["cargo", "run", "--offline", "-q", "--features", "test-utils,metrics", "--manifest-path",
+        feats = "test-utils,metrics" + (",deadlock-detection" if any(x.startswith("dd_") for x in sc) else "")
+        p = subprocess.run(["cargo", "run", "--offline", "-q", "--features", feats, "--manifest-path",
                             os.path.join(crate, "Cargo.toml"), "--"] + sc, capture_output=True, text=True, timeout=600, env=env)
     except subprocess.TimeoutExpired:
         return {"reproduced": True, "scenarios": sc, "note": "replay scenarios did not terminate within 600 s on this tree (a hang is itself a failing behaviour)"}
